@@ -31,6 +31,24 @@ TIERS = {
 }
 
 
+def _frame_numbers(rng, F, fired):
+    """Frame numbers handed to track(): usually 0..F-1, sometimes strided / irregular / offset (tracking every n-th
+    frame, a clip starting mid-video). The window is counted in tracked frames, so identity must not depend on them."""
+    if rng.random() >= 0.3:
+        return None
+    start = rng.choice([0, 0, 1, 7, 250])
+    if rng.random() < 0.6:
+        stride = rng.choice([2, 3, 5, 10])
+        out = [start + i * stride for i in range(F)]
+    else:
+        out, cur = [], start
+        for _ in range(F):
+            out.append(cur)
+            cur += rng.choice([1, 1, 2, 3, 6])
+    fired["strided_frame_idx"] = fired.get("strided_frame_idx", 0) + 1
+    return out
+
+
 def gen_plan(rng, index, tier):
     big = tier == "thorough"
     K = rng.choice([1, 2, 2, 3, 3, 4, 5, 6])
@@ -198,7 +216,11 @@ def gen_plan(rng, index, tier):
             rng.shuffle(fr)
             fired["permute_detections"] = fired.get("permute_detections", 0) + 1
         frames.append(fr)
-    return {"cfg": cfg, "n_nodes": n_nodes, "frames": frames, "K": K, "faults_fired": fired, "D": D}
+    plan = {"cfg": cfg, "n_nodes": n_nodes, "frames": frames, "K": K, "faults_fired": fired, "D": D}
+    fidx = _frame_numbers(rng, len(frames), fired)
+    if fidx:
+        plan["frame_idx"] = fidx
+    return plan
 
 
 def describe(plan):
@@ -235,6 +257,10 @@ def in_class(plan):
 def shrink(plan):
     F = len(plan["frames"])
     cands = []
+    if plan.get("frame_idx"):
+        p = copy.deepcopy(plan)
+        p.pop("frame_idx")
+        cands.append(p)
     fast = "fast_common_motion" in plan.get("faults_fired", {}) or "wander" in plan.get("faults_fired", {})
     for cut in (F // 2, F - 1):
         if 2 <= cut < F:
